@@ -738,6 +738,62 @@ def relgap_assigned(ex, st, fid, v, s):
               extra={'prop': FPROP.get(ex.fname, 'C01')})
 
 
+def _fdiv_axioms(t):
+    """fdiv(a, b) * b == a (b != 0) for every application inside t: the
+    uninterpreted quotient is the real quotient (used only for the small
+    definition obligations below)"""
+    out, seen, stack = [], set(), [t]
+    while stack:
+        e = stack.pop()
+        if e.get_id() in seen:
+            continue
+        seen.add(e.get_id())
+        if z3.is_app(e):
+            if e.decl().name() == 'fdiv' and e.num_args() == 2:
+                a, b = e.arg(0), e.arg(1)
+                out.append(z3.Implies(b != 0, e * b == a))
+            stack.extend(e.children())
+    return out
+
+
+def certificate_residual_assigned(which):
+    """every assignment of pinfres / dinfres in conelp follows the
+    documented definition (coneprog.rst):
+      pinfres = ||G'z + A'y|| / ( -(h'z + b'y) * max(1, ||c||) )   [resx0]
+      dinfres = max( ||Gx + s|| / ( -c'x * max(1, ||h||) ),
+                     ||Ax||    / ( -c'x * max(1, ||b||) ) )
+    in terms of the variables hresx, hresy, hresz, resx0, resy0, resz0, hz,
+    by, cx of the function (real arithmetic, small formula)"""
+    def h(ex, st, fid, v, s):
+        fr = st.frames[fid]
+        real = lambda kt: z3.ToReal(kt[1]) if kt[0] == 'int' else kt[1]
+
+        def get(nm):
+            return real(ex.num(st, fr[nm]))
+        if v is None:
+            return
+        try:
+            rv = real(ex.num(st, v))
+            if which == 'pinfres':
+                den = -(get('hz') + get('by'))
+                want = get('hresx') / (den * get('resx0'))
+                pos = [den > 0, get('resx0') > 0]
+            else:
+                den = -get('cx')
+                t1 = get('hresz') / (den * get('resz0'))
+                t2 = get('hresy') / (den * get('resy0'))
+                want = z3.If(t1 >= t2, t1, t2)
+                pos = [den > 0, get('resy0') > 0, get('resz0') > 0]
+        except Exception:
+            return
+        ax = _fdiv_axioms(rv)
+        ex.oblige(st, 'certificate-definition', z3.Implies(
+            z3.And(ax + pos), rv == want), s,
+            '%s is assigned the documented residual (line %s)' % (
+                which, s.lineno), extra={'prop': 'C02'})
+    return h
+
+
 FPROP = {'conelp': 'C01', 'coneqp': 'C03', 'cpl': 'C04'}
 
 
@@ -745,7 +801,12 @@ FUNCS = {
     'conelp': {'setup': conelp_setup, 'scenarios': CONELP_SCENARIOS,
                'on_outcomes': conelp_on_outcomes,
                'config': {'unroll': 4,
-                          'watch_assign': {'relgap': relgap_assigned}}},
+                          'watch_assign': {
+                              'relgap': relgap_assigned,
+                              'pinfres': certificate_residual_assigned(
+                                  'pinfres'),
+                              'dinfres': certificate_residual_assigned(
+                                  'dinfres')}}},
     'conelp#algebra': {'function': 'conelp', 'setup': conelp_setup,
                        'scenarios': {'defaults': {}},
                        'on_outcomes': conelp_on_outcomes,
